@@ -120,6 +120,16 @@ def check_case(o):
         probs.append(('duplicates', {'cells': sorted(dup)}))
     if op == 'and' and len(A) == 1 and len(B) == 1 and len(res.ranges) > 1:
         probs.append(('duplicates', {'areas': len(res.ranges)}))
+    if op == 'and':
+        # each cell once per pair of covering areas (Rects!InterMultiplicity)
+        want_n = {(m[0], m[1], m[2]): m[3] for m in o.get('mult', [])}
+        have_n = collections.Counter(got)
+        bad = sorted(k for k in want_n if have_n.get(k) != want_n[k])
+        if bad:
+            probs.append(('multiplicity', {'cells': bad[:6],
+                                           'expected': [want_n[k] for k in bad[:6]],
+                                           'observed': [have_n.get(k) for k in bad[:6]]}))
+            return probs
     if op in ('or', 'add'):
         want = [(x['s'], x['n1'], x['r1'], x['n2'], x['r2']) for x in o['areas']]
         have = [(2 if r.get('sheet_id') else 1, r['n1'], int(r['r1']), r['n2'],
